@@ -233,29 +233,34 @@ def check_c03(toks, mn, mx, ms, im, is_, mode):
 
 def check_c08_timing(valid, handovers, mx, ms):
     """handovers: [(s, e, frames_read, nones_read)] recorded when the consumer
-    received each token."""
+    received each token.  The deciding frame is derived from the stream itself:
+    the token's last frame if it is max_length long, else the (ms+1)-th invalid
+    frame after its last valid frame, else (the stream ends first) end of stream."""
     n = len(valid)
     ms = max(ms, 0)
     for s, e, reads, nones in handovers:
         ln = e - s + 1
-        if nones:
-            if reads != n:
-                return "EOF seen after %d of %d frames" % (reads, n)
-            continue  # handed over at end of stream
-        d = reads - 1  # index of the last frame read before the hand-over
         if ln >= mx:
-            if d != e:
-                return "cut token (%d,%d) handed over after reading frame %d" % (s, e, d)
-            continue
-        # ended by excess silence
-        lv = e
-        while lv >= s and not valid[lv]:
-            lv -= 1
-        if not (e < d <= e + ms + 1) or d >= n or valid[d]:
-            return "token (%d,%d) handed over after reading frame %d (ms=%d)" % (s, e, d, ms)
-        if d - lv != ms + 1 or any(valid[lv + 1 : d + 1]):
-            return "token (%d,%d): deciding frame %d is not silent frame #%d after last valid %d" % (
-                s, e, d, ms + 1, lv)
+            want = (e + 1, 0)
+            why = "cut at max_length, decided by frame %d" % e
+        else:
+            lv = e
+            while lv >= s and not valid[lv]:
+                lv -= 1
+            run = 0
+            j = lv + 1
+            while j < n and not valid[j] and run < ms + 1:
+                run += 1
+                j += 1
+            if run == ms + 1:
+                want = (lv + ms + 2, 0)
+                why = "ended by excess silence, decided by frame %d" % (lv + ms + 1)
+            else:
+                want = (n, 1)
+                why = "ended by end of stream"
+        if (reads, nones) != want:
+            return "token (%d,%d) %s: handed over after %d frames read and %d end-of-stream request(s), expected %d and %d" % (
+                s, e, why, reads, nones, want[0], want[1])
     return None
 
 
